@@ -92,6 +92,42 @@ Proof.
 Qed.
 Print Assumptions C11_copy_expr_from.
 
+(* Repeated use of one target manager.  Every operation (load of a dump,
+   copy_expr_from with or without bindings, assignment) returns a state whose
+   label -> container map is the one it started from: a rebinding lives in the
+   evaluation namespace of that one copy only. *)
+Theorem C11_copy_expr_from_containers_frame : forall (fuel : nat) (st st' : mstate) (op : mop),
+  mstep fuel st op = Some st' -> ms_containers st' = ms_containers st.
+Proof. intros fuel st st' op H. exact (mstep_containers fuel st op st' H). Qed.
+Print Assumptions C11_copy_expr_from_containers_frame.
+
+(* Hence after any history of such operations the definitions are those obtained
+   by evaluating every printed text against the ORIGINAL containers [cs] (plus
+   the bindings of that very copy): a later load / copy is not affected by an
+   earlier rebinding. *)
+Theorem C11_history_partial : forall (cs : list (pystr * term)) (fuel : nat) (ops : list mop) (ts : list taskdef),
+  forallb (op_wf cs fuel) ops = true ->
+  mrun fuel {| ms_containers := cs; ms_tasks := ts |} ops =
+  Some (map (fun t => {| ms_containers := cs; ms_tasks := t |}) (spec_run cs ts ops)).
+Proof. intros; apply mrun_spec; assumption. Qed.
+Print Assumptions C11_history_partial.
+
+(* the seeded shape: copy with a -> b['inner'], then a plain copy of the same
+   definitions: the second copy defines c['p'] over a, not over b['inner'] *)
+Example C11_history_nonvacuous : exists mul,
+  find (fun c => match op_str c with Some t => pystr_eqb t (s2p "*") | None => false end) bin_classes = Some mul /\
+  let top l := TTop (s2p l) false in
+  let it o k := TItem o (TConst (LStr (s2p k))) in
+  let cs := [(s2p "a", top "a"); (s2p "b", top "b"); (s2p "c", top "c")]%string in
+  let src := [(it (top "c") "p", TBin mul (it (top "a") "x") (TConst (LInt 2)))]%string in
+  let ops := [MCopy true src [(s2p "a", it (top "b") "inner")]; MCopy true src []]%string in
+  forallb (op_wf cs 20) ops = true /\
+  option_map (map ms_tasks) (mrun 20 {| ms_containers := cs; ms_tasks := [] |} ops) =
+  Some [ [(it (top "c") "p", TBin mul (it (it (top "b") "inner") "x") (TConst (LInt 2)))];
+         [(it (top "c") "p", TBin mul (it (top "a") "x") (TConst (LInt 2)))] ]%string.
+Proof. eexists. split; [vm_compute; reflexivity|]. cbv zeta. split; vm_compute; reflexivity. Qed.
+Print Assumptions C11_history_nonvacuous.
+
 (* The deferred comparisons round trip: a['x']._eq(a['y'] + 1) prints as
    (a['x'])._eq((a['y'] + 1)), which rebuilds it (fix 9341d34; before it the
    text was (a['x'] == ...), which Python evaluates to a bool: second part). *)
